@@ -510,6 +510,198 @@ func runC17(c *an.Ctx) {
 		},
 	})
 
+	// the handler's exchange delegates to the chosen upstream with this request
+	decide(c, "C17-R1", fw+"(*Handler).exchange", an.DecideCfg{
+		Dom: an.Domain{},
+		OnCall: func(it *an.Interp, name string, args []an.AV) (an.AV, bool) {
+			if name == "p2.Exchange" {
+				return an.AV{Kind: an.KTuple, Tup: []an.AV{an.Sym("resp"), an.Sym("nw"), an.Sym("err")}}, true
+			}
+			if name == "time.Now" {
+				return an.Sym("now"), true
+			}
+			return an.AV{}, false
+		},
+		Expect: func(f an.Features, o an.AOutcome) string {
+			n := 0
+			for _, e := range o.Effects {
+				if e.Kind == "call" && e.Name == "p2.Exchange" {
+					n++
+					if strings.Join(e.Args, ",") != "p1,p3" {
+						return "the exchange made with this request's context and message; got " + strings.Join(e.Args, ",")
+					}
+				}
+			}
+			if n != 1 || o.RetString() != "resp, err" {
+				return "exactly one exchange on the given upstream, its reply and error returned unchanged; got " + o.RetString()
+			}
+			return ""
+		},
+	})
+	// the main upstream is picked from the active set only, under the read lock
+	decide(c, "C17-R1", fw+"(*Handler).pickActiveUpstream", an.DecideCfg{
+		Dom: an.Domain{"len(p0.activeUpstreams)": an.Ints(0, 1, 3)},
+		OnCall: func(it *an.Interp, name string, args []an.AV) (an.AV, bool) {
+			if strings.HasSuffix(name, ".Intn") {
+				if len(args) > 0 && args[len(args)-1].String() != "len(p0.activeUpstreams)" && avInt(args[len(args)-1]) != avInt(it.Feature("len(p0.activeUpstreams)")) {
+					return an.Sym("index drawn from another range: " + args[len(args)-1].String()), true
+				}
+				return an.Sym("i"), true
+			}
+			return an.AV{}, false
+		},
+		Expect: func(f an.Features, o an.AOutcome) string {
+			lock, unlock := o.CallIndex("(*sync.RWMutex).RLock"), -1
+			for i, e := range o.Effects {
+				if (e.Kind == "defer" || e.Kind == "call") && e.Name == "(*sync.RWMutex).RUnlock" {
+					unlock = i
+				}
+			}
+			if lock != 0 || unlock < 0 {
+				return "the active set read under activeUpstreamsMu (RLock first, RUnlock deferred)"
+			}
+			if f.I("len(p0.activeUpstreams)") == 0 {
+				if o.RetString() == "nil" {
+					return ""
+				}
+				return "nil when no main upstream is active (the caller then uses the fallbacks)"
+			}
+			if o.RetString() == "p0.activeUpstreams[i]" {
+				return ""
+			}
+			return "an element of the active set, chosen by an index below its length; got " + o.RetString()
+		},
+	})
+	// UDP first; TCP only when the UDP exchange asks for it
+	decide(c, "C17-R4", fw+"(*UpstreamPlain).Exchange", an.DecideCfg{
+		Dom:    an.Domain{"(p0.timeout > 0)": an.Bools, "fb": an.Bools},
+		Inline: func(f *ssa.Function) bool { return strings.HasPrefix(an.FnKey(f), fw+"(*UpstreamPlain).Exchange$") },
+		OnCall: func(it *an.Interp, name string, args []an.AV) (an.AV, bool) {
+			switch {
+			case strings.HasSuffix(name, ").exchangeUDP"):
+				return an.AV{Kind: an.KTuple, Tup: []an.AV{it.Feature("fb"), an.Sym("udpresp"), an.Sym("udperr")}}, true
+			case strings.HasSuffix(name, ").exchangeNet"):
+				return an.AV{Kind: an.KTuple, Tup: []an.AV{an.Sym("tcpresp(" + args[len(args)-1].String() + ")"), an.Sym("tcperr")}}, true
+			case name == "context.WithTimeout":
+				return an.AV{Kind: an.KTuple, Tup: []an.AV{an.NonNil("ctx2"), an.NonNil("cancel")}}, true
+			case strings.HasSuffix(name, "errors.Annotate"):
+				return args[0], true
+			}
+			return an.AV{}, false
+		},
+		Expect: func(f an.Features, o an.AOutcome) string {
+			if o.Exit != "return" || len(o.Ret) != 3 {
+				return "a (resp, network, err) result"
+			}
+			tcp := false
+			for _, e := range o.Effects {
+				if e.Kind == "call" && strings.HasSuffix(e.Name, ").exchangeNet") {
+					tcp = true
+				}
+			}
+			if tcp != f.B("fb") {
+				return fmt.Sprintf("a TCP exchange exactly when the UDP exchange asks for the fallback (%v)", f.B("fb"))
+			}
+			want := "udpresp, " + fmt.Sprintf("%q", netUDP) + ", udperr"
+			if f.B("fb") {
+				want = "tcpresp(" + fmt.Sprintf("%q", netTCP) + "), " + fmt.Sprintf("%q", netTCP) + ", tcperr"
+			}
+			if o.RetString() != want {
+				return want + "; got " + o.RetString()
+			}
+			return ""
+		},
+	})
+	// one connection, one request, returned to the pool only after a valid reply
+	decide(c, "C17-R4", fw+"(*UpstreamPlain).processConn", an.DecideCfg{
+		Dom: an.Domain{"p1.Deadline()#1": an.Bools, "p4": an.Strs(netTCP, netUDP), "dlerr": an.Bools, "writeerr": an.Bools, "readerr": an.Bools, "puterr": an.Bools},
+		Inline: func(f *ssa.Function) bool { return strings.HasPrefix(an.FnKey(f), fw+"(*UpstreamPlain).processConn$") },
+		OnCall: func(it *an.Interp, name string, args []an.AV) (an.AV, bool) {
+			errOr := func(k, e string) an.AV {
+				if it.Feature(k).IsTrue() {
+					return an.NonNil(e)
+				}
+				return an.Nil()
+			}
+			switch {
+			case name == "p1.Deadline":
+				return an.AV{Kind: an.KTuple, Tup: []an.AV{an.Sym("ctxdeadline"), it.Feature("p1.Deadline()#1")}}, true
+			case name == "time.Now":
+				return an.Sym("now"), true
+			case name == "(time.Time).Add":
+				return an.Sym("now+udptimeout"), true
+			case strings.HasSuffix(name, "pool.Conn).SetDeadline"), strings.HasSuffix(name, ".SetDeadline"):
+				return errOr("dlerr", "dlErr"), true
+			case strings.HasSuffix(name, "pool.Conn).Write"), strings.HasSuffix(name, ".Write"):
+				return an.AV{Kind: an.KTuple, Tup: []an.AV{an.Sym("n"), errOr("writeerr", "writeErr")}}, true
+			case strings.HasSuffix(name, ").readValidMsg"):
+				if it.Feature("readerr").IsTrue() {
+					return an.AV{Kind: an.KTuple, Tup: []an.AV{an.Nil(), an.NonNil("readErr")}}, true
+				}
+				return an.AV{Kind: an.KTuple, Tup: []an.AV{an.NonNil("resp"), an.Nil()}}, true
+			case strings.HasSuffix(name, "pool.Pool).Put"):
+				return errOr("puterr", "putErr"), true
+			case strings.HasSuffix(name, "pool.Conn).Close"), strings.HasSuffix(name, ".Close"):
+				return an.Nil(), true
+			case strings.HasSuffix(name, "errors.WithDeferred"):
+				if args[0].Kind != an.KNil {
+					return args[0], true
+				}
+				return args[1], true
+			case name == "fmt.Errorf":
+				return an.NonNil("wrapped"), true
+			}
+			return an.AV{}, false
+		},
+		Expect: func(f an.Features, o an.AOutcome) string {
+			if o.Exit != "return" || len(o.Ret) != 2 {
+				return "a (resp, err) result"
+			}
+			hasDL := f.B("p1.Deadline()#1") || f.S("p4") == netUDP
+			fail := (hasDL && f.B("dlerr")) || f.B("writeerr") || f.B("readerr")
+			var puts, closes, writes, reads, dls int
+			for _, e := range o.Effects {
+				if e.Kind != "call" {
+					continue
+				}
+				switch {
+				case strings.HasSuffix(e.Name, "pool.Pool).Put"):
+					puts++
+					if strings.Join(e.Args, ",") != "p3,p2" {
+						return "this connection returned to the pool it came from; got " + strings.Join(e.Args, ",")
+					}
+				case strings.HasSuffix(e.Name, ".Close"):
+					closes++
+				case strings.HasSuffix(e.Name, ".Write"):
+					writes++
+				case strings.HasSuffix(e.Name, ").readValidMsg"):
+					reads++
+					if e.Args[1] != "p5" {
+						return "the reply validated against this request; got " + e.Args[1]
+					}
+				case strings.HasSuffix(e.Name, ".SetDeadline"):
+					dls++
+				}
+			}
+			if hasDL != (dls == 1) {
+				return fmt.Sprintf("a deadline on the connection exactly when the context has one or the network is UDP (%v)", hasDL)
+			}
+			if fail {
+				if puts != 0 || closes != 1 || o.Ret[1].Kind == an.KNil {
+					return fmt.Sprintf("a failed exchange closes the connection instead of pooling it and returns the error (puts=%d closes=%d)", puts, closes)
+				}
+				return ""
+			}
+			if puts != 1 || closes != 0 || writes != 1 || reads != 1 {
+				return fmt.Sprintf("one write, one validated read, and the connection pooled exactly once after success (writes=%d reads=%d puts=%d closes=%d)", writes, reads, puts, closes)
+			}
+			if f.B("puterr") != (o.Ret[1].Kind != an.KNil) || o.Ret[0].String() != "nonnil:resp" {
+				return "the validated reply returned"
+			}
+			return ""
+		},
+	})
+
 	// ---- R4
 	decide(c, "C17-R4", fw+"(*UpstreamPlain).readValidMsg", an.DecideCfg{
 		Dom: an.Domain{"readerr": an.Bools, "valid": an.Bools},
